@@ -336,7 +336,11 @@ impl State {
                         the_current_infix: None,
                         infix_format: InfixFormat::Std,
                     },
-                    infix_from_timestamp(&ts, self.config.use_utc, &InfixFormat::Std),
+                    self.collision_free_start_infix(infix_from_timestamp(
+                        &ts,
+                        self.config.use_utc,
+                        &InfixFormat::Std,
+                    )),
                 )
             }
             Naming::Timestamps => (
@@ -374,7 +378,11 @@ impl State {
                 } else {
                     let fmt = InfixFormat::custom(ts_fmt);
                     let ts = latest_timestamp_file(&self.config, !self.config.append, &fmt);
-                    let infix = infix_from_timestamp(&ts, self.config.use_utc, &fmt);
+                    let infix = self.collision_free_start_infix(infix_from_timestamp(
+                        &ts,
+                        self.config.use_utc,
+                        &fmt,
+                    ));
                     (
                         NamingState::Timestamps {
                             current_timestamp: ts,
@@ -444,6 +452,19 @@ impl State {
             write,
             path,
         ))
+    }
+
+    // When starting without append with a timestamp-named output file, a file with the same
+    // timestamp can exist already (restart within the same second): don't truncate it,
+    // but use the next free ".restart-<number>" infix, as a rotation does
+    fn collision_free_start_infix(&self, infix: String) -> String {
+        if self.config.append {
+            infix
+        } else {
+            self.config
+                .file_spec
+                .collision_free_infix_for_rotated_file(&infix)
+        }
     }
 
     pub fn config(&self) -> &FileLogWriterConfig {
